@@ -26,23 +26,39 @@ COQ_IMPORTS = "From PAV Require Import Base.NumOps Model.C13Lib."
 SHARD = 40
 RULE = ("util level (autoarray.util.transformer / inversion_interferometer_util functions called directly): grids of 0-12 "
         "(y,x) points and 0-8 (u,v) baselines, either on the half-integer lattice (every phase a multiple of a quarter turn: "
-        "exact trig table) or on a 1/16 lattice (generic phases); zero and repeated baselines; integer / quarter valued images, "
-        "signed mapping matrices with zeros, arbitrary integer preload tables incl. 0 x K tables, complex visibilities, complex "
-        "positive noise maps with real/imag parts in {1/2,1,2,4}; image_via_jit_from with n_pixels <, =, > grid rows. "
-        "Budgets: quick 40 util batches (8 ops each) + 50 geometries; thorough 400 + 500. Class level: Mask2D of shape up to 5x5 (non-square, 0..16 unmasked pixels incl. outer ring, fully masked, single pixel), "
+        "exact trig table) or on a 1/16 lattice (generic phases); zero and repeated baselines; images / matrix COLUMNS / visibility "
+        "vectors / reconstructions = (integer or quarter) * 2^e with e in {0, -7 .. -200, +20 .. +100} per vector (entries within a "
+        "vector spread over at most 2^-20), signed mapping matrices with zeros, noise maps {1/2,1,2,4} * 2^{0, +-20, +-50}, arbitrary "
+        "integer preload tables incl. 0 x K tables; image_via_jit_from with n_pixels <, =, > grid rows; batches come in sibling pairs "
+        "with identical shapes; every 2-D argument as C-ordered, Fortran-ordered or a strided view; every function is called twice "
+        "(results must be identical) and every argument must be unchanged afterwards. All comparisons are RELATIVE to the l1 norm "
+        "of the linear argument (1e-9). Budgets: quick 36 util batches (8 ops each) + 32 geometries + 28 histories; thorough 400 + 500 + 280. "
+        "Class level: Mask2D of shape up to 5x5 (non-square, 0..16 unmasked pixels incl. outer ring, fully masked, single pixel), "
         "pixel scales (sy,sx) in {1/4..3} independently, origins k/4, baselines up to 2e5 wavelengths (phases of several turns), "
         "TransformerDFT(preload on/off).visibilities_from / image_from / transform_mapping_matrix with slim- and native-stored "
         "images, InversionInterferometerMapping(DatasetInterface(Visibilities, VisibilitiesNoiseMap, TransformerDFT), 1-3 linear "
         "objects with/without regularization, explicit or config-default diagonal value).data_vector / curvature_matrix / "
-        "operated_mapping_matrix, aa.Inversion factory. Python-side relations: preload on = off, native = slim storage, "
-        "adjoint dot test, column-wise transform. Non-trivial = at least 2 pixels and one non-zero baseline; distinct = distinct JSON input.")
+        "operated_mapping_matrix (read in both orders, twice, and through a second inversion), aa.Inversion factory, plus a SIBLING "
+        "inversion through the same transformer object (rows of M / data / noise rotated, regularization flags flipped). "
+        "Histories (one Coq case each, every step compared with the model independently): 2-4 TransformerDFT objects alive in one "
+        "interpreter that differ in exactly ONE construction ingredient (mask shifted by one pixel / permuted / one pixel moved / "
+        "point-reflected / reshaped with the same row-major bytes / transposed / one pixel more or fewer, pixel scales swapped, origin "
+        "moved, one baseline changed / order reversed / negated, preload flipped, identical twin), the ingredient being a new object, "
+        "the same Mask2D / ndarray object shared, or the caller's Mask2D / uv array EDITED IN PLACE before the next construction; "
+        "then 1-3 kinds of call per live object, often doubled with a sibling argument (the same object again, the same object "
+        "edited in place, values rotated / negated / scaled by 2^-k / one entry changed, equal values in a new object), arguments "
+        "shared between sibling transformers, images slim / native / store_native / derived by arithmetic, matrices C / F / strided, "
+        "uv as int or float arrays; calls of different objects interleaved. Python-side relations: preload on = off, native = slim "
+        "storage, adjoint dot test, column-wise transform, arguments unchanged, second call identical. Non-trivial = at least 2 "
+        "pixels and one non-zero baseline (histories: at least 2 objects and 2 calls); distinct = distinct JSON input.")
 EXHAUSTIVE = {}
 TRUSTED = ["hand-written Gallina model coq/Model/C13.v (scatter loops, sparsity test, preload tables, grid of unmasked pixel centres, "
            "normal equations), tied to /repo by this correspondence run: model and specification are evaluated inside Coq (vm_compute) "
            "on the exact rational values of the doubles the implementation received and compared with its outputs to 1e-9 "
-           "(relative above 1; the grid to 1e-12 relative)",
+           "RELATIVE to the l1 norm of the linear argument (image, column, visibilities, ...; all-zero argument: exact); preload "
+           "tables to 1e-9 absolute, the grid to 1e-12 relative",
            "execution device QOpsT (coq/Model/C13Lib.v): cos/sin of a rational number of turns, exact at quarter turns, otherwise a "
-           "22-term Taylor series on a 2^-90 lattice (error < 1e-20); never used in a theorem",
+           "10-term Taylor polynomials in 2^-60 fixed point (error < 1e-16); never used in a theorem",
            "numpy element-wise arithmetic, np.dot (Gram product), np.hstack, complex accumulation as two real accumulations; "
            "np.cos/np.sin/np.pi accurate to a few ulp",
            "minimal stand-in for the absent optional module pylops (base class only), installed by harness/c13.py"]
@@ -215,7 +231,8 @@ def gen_class(tier, rng):
             value = rng.choice(["default", "1/8", "1", "2", "0"])
             en = rng.choice(NOISE_EXPS) if i % 4 == 0 else 0
             yield dict(base, op="inv", preload=bool(i % 2), objs=objs, data=[Sv(v) for v in rcv(rng, K, e=rexp(rng, i % 4 == 0))],
-                       noise=[Sv(v) for v in rnoise(rng, K, e=en)], value=value, factory=bool(i % 3 == 0))
+                       noise=[Sv(v) for v in rnoise(rng, K, e=en)], value=value, factory=bool(i % 3 == 0),
+                       sibling=rng.choice(["M", "data", "noise", "reg"]) if i % 4 in (0, 2) else None)
 
 # ---- histories: sibling transformers (differing in exactly ONE construction ingredient) alive in one interpreter, method
 # ---- calls interleaved, arguments reused / derived / edited in place
@@ -233,13 +250,43 @@ def mask_variant(rng, m, kind):
         if not free or not cells: return [r[:] for r in m]
         out = cells[:]; out[rng.randrange(len(out))] = rng.choice(free); return mask_from_cells(H, W, out)
     if kind == "flip": return [r[::-1] for r in m][::-1]        # point reflection: same count
+    if kind == "reshape":                    # same row-major contents, shape (W, H)
+        flat = [b for r in m for b in r]; return [flat[y * H:(y + 1) * H] for y in range(W)]
+    if kind == "transpose": return [[m[y][x] for y in range(H)] for x in range(W)]
     if kind == "count":                      # one pixel more or fewer
         free = [c for c in allc if c not in cells]
         if free and (len(cells) <= 1 or rng.random() < 0.5): return mask_from_cells(H, W, cells + [rng.choice(free)])
         if len(cells) >= 2: return mask_from_cells(H, W, cells[:-1])
     return [r[:] for r in m]
 
-def gen_hist_one(rng):
+SIB_KINDS = ["shift", "origin", "perm", "scales", "move1", "uv_one", "flip", "reshape", "uv_rev", "count", "transpose", "uv_neg",
+             "same", "preload"]
+MASK_KINDS = ("shift", "perm", "move1", "flip", "count", "reshape", "transpose")
+
+def rot(l): return l[1:] + l[:1]
+def sibling_values(rng, kind, vals):
+    """an argument of the same shape that a too-coarse key (shape, sum, norm, first entry ...) cannot tell from [vals]"""
+    mode = rng.choice(["rot", "rot", "edit1", "neg", "scaled", "equal", "equal"])
+    if mode == "rot": return mode, rot(vals)
+    if mode == "neg":
+        if kind == "vis": return mode, Sv([-F(x) for x in vals])
+        if kind == "tmm": return mode, Sm([[-F(x) for x in r] for r in vals])
+        return mode, [Sv([-F(a), -F(b)]) for a, b in vals]
+    if mode == "scaled":
+        c = Fraction(2) ** rng.choice([-10, -27, -30, -40, -60, 20])
+        if kind == "vis": return mode, Sv([F(x) * c for x in vals])
+        if kind == "tmm": return mode, Sm([[F(x) * c for x in r] for r in vals])
+        return mode, [Sv([F(a) * c, F(b) * c]) for a, b in vals]
+    if mode == "edit1" and len(vals) > 0:
+        k = rng.randrange(len(vals)); out = [v[:] if isinstance(v, list) else v for v in vals]
+        if kind == "vis": out[k] = S(F(out[k]) * 3 + Fraction(1, 4) * (F(out[k]) == 0))
+        elif kind == "tmm":
+            if out[k]: out[k][0] = S(F(out[k][0]) * 3 + Fraction(1, 4) * (F(out[k][0]) == 0))
+        else: out[k] = [out[k][1], S(F(out[k][0]) + 1)]
+        return mode, out
+    return "equal", vals
+
+def gen_hist_one(rng, h=0):
     H, W = rng.choice([(1, 3), (2, 2), (2, 3), (3, 2), (3, 3), (2, 4), (4, 3), (3, 4)])
     n = rng.randint(1, min(H * W - 1, 5))
     m0 = mask_from_cells(H, W, rng.sample([(y, x) for y in range(H) for x in range(W)], n))
@@ -267,21 +314,22 @@ def gen_hist_one(rng):
             if t["uv"] == edit: t["live"] = False
         return edit
     def add_tr(mk, uk, preload):
-        trs.append({"mask": mk, "uv": uk, "live": True, "npix": npix_of(masks[mk]["m"]), "K": len(uvs[uk])})
+        trs.append({"mask": mk, "uv": uk, "live": True, "npix": npix_of(masks[mk]["m"]), "K": len(uvs[uk]), "geom": masks[mk]})
         steps.append({"s": "new", "mask": mk, "uv": uk, "preload": preload})
     mk, uk = add_mask(g0), add_uv(uv0)
-    pre0 = rng.random() < 0.7
+    pre0 = rng.random() < 0.75
     add_tr(mk, uk, pre0)
     nsib = rng.choice([1, 2, 2, 3])
-    for _ in range(nsib):
+    for si in range(nsib):
         src = rng.randrange(len(trs)); g = masks[trs[src]["mask"]]; uv = uvs[trs[src]["uv"]]
-        kind = rng.choice(["shift", "shift", "perm", "move1", "flip", "count", "uv_one", "uv_rev", "uv_neg", "scales", "origin",
-                           "same", "preload"])
-        pre = pre0 if rng.random() < 0.75 else (not pre0)
+        # the first sibling's kind goes round-robin over the histories so that every ingredient is varied alone several times
+        kind = SIB_KINDS[h % len(SIB_KINDS)] if si == 0 else rng.choice(SIB_KINDS)
+        pre = pre0 if si == 0 or rng.random() < 0.75 else (not pre0)
         mk, uk = trs[src]["mask"], trs[src]["uv"]
-        if kind in ("shift", "perm", "move1", "flip", "count"):
+        if kind in MASK_KINDS:
             g2 = dict(g, m=mask_variant(rng, g["m"], kind))
-            edit = mk if rng.random() < 0.3 else None          # in-place edit of the caller's Mask2D, then a new transformer
+            same_shape = (len(g2["m"]), len(g2["m"][0])) == (len(g["m"]), len(g["m"][0]))
+            edit = mk if same_shape and rng.random() < 0.3 else None     # in-place edit of the caller's Mask2D, then a new transformer
             mk = add_mask(g2, edit)
         elif kind == "scales":
             g2 = dict(g, sy=g["sx"], sx=g["sy"]) if g["sy"] != g["sx"] else dict(g, sx=S(F(g["sx"]) * 2))
@@ -299,47 +347,54 @@ def gen_hist_one(rng):
         elif kind == "preload": pre = not pre0
         elif kind == "same" and rng.random() < 0.5: mk = add_mask(dict(g))     # an equal but distinct Mask2D object
         add_tr(mk, uk, pre)
-    # calls: every live transformer gets 2-3 calls, interleaved; arguments are often SHARED between siblings (same values
-    # through a different object) and re-used / edited in place / derived
+    # calls.  Per live transformer: 1-3 kinds of call, often DOUBLED (a second call through the same object with a sibling
+    # argument: the same array object again, the same object edited in place, a rotation / negation / rescaling of the
+    # values, equal values in a new object).  First calls often take the values a sibling transformer was given.
     live = [i for i, t in enumerate(trs) if t["live"]]
-    calls = []
-    for i in live:
-        kinds = rng.sample(["vis", "vis", "tmm", "tmm", "image"], rng.choice([2, 2, 3]))
-        calls += [(i, k) for k in kinds]
-    rng.shuffle(calls)
-    last = {}                 # (kind, shape) -> last argument values, to be re-used for a sibling
-    e_h = rexp(rng)
-    for i, k in calls:
-        t = trs[i]; npix, Kt = t["npix"], t["K"]
+    nid = [0]; last = {}; e_h = rexp(rng)
+    def call(i, k, vals=None, mode=None, first=None):
+        t = trs[i]; npix, Kt = t["npix"], t["K"]; nid[0] += 1
+        st = {"s": k, "t": i, "id": nid[0]}
+        if first is not None and mode in ("equal", "edit1", "rot") and rng.random() < 0.6:
+            st["reuse"] = first["id"]                  # equal: the very same object again; edit1 / rot: edited in place
         if k == "vis":
             key = ("vis", npix); e = e_h if rng.random() < 0.6 else rexp(rng)
-            if key in last and rng.random() < 0.5: img = last[key]; how = rng.choice(["slim", "native", "same_obj", "scaled"])
-            else: img = Sv(rvals(rng, npix, sparse=rng.random() < 0.3, e=e)); how = rng.choice(["slim", "native", "store_native", "sum", "scaled", "edit"])
-            last[key] = img
-            st = {"s": "vis", "t": i, "img": img, "how": how, "own_mask": rng.random() < 0.5}
-            if how == "sum": st["part"] = Sv(rvals(rng, npix, e=e))
-            steps.append(st)
+            if vals is None:
+                if key in last and rng.random() < 0.5: vals = last[key][0]
+                else: vals = Sv(rvals(rng, npix, sparse=rng.random() < 0.3, e=e))
+            st.update(img=vals, how=rng.choice(["slim", "native", "store_native", "sum", "scaled"]), own_mask=rng.random() < 0.5)
         elif k == "tmm":
-            P = rng.choice([1, 2, 2, 3]); key = ("tmm", npix, P)
-            if key in last and rng.random() < 0.5: M = last[key]; how = rng.choice(["c", "f", "same_obj", "scaled"])
-            else: M = Sm(rmat(rng, npix, P)); how = rng.choice(["c", "f", "view", "edit", "scaled"])
-            if how == "scaled":           # c * M for an exact power of two c: T(c M) = c T(M) down to any magnitude
-                c = Fraction(2) ** rng.choice([-10, -27, -30, -40, -60, 20]); M = Sm([[F(x) * c for x in r] for r in M])
-            last[key] = M
-            steps.append({"s": "tmm", "t": i, "P": P, "M": M, "how": how})
+            if vals is None:
+                P = rng.choice([1, 2, 2, 3]); key = ("tmm", npix, P)
+                if key in last and rng.random() < 0.5: vals = last[key][0]
+                else: vals = Sm(rmat(rng, npix, P))
+            else: P = first["P"]; key = ("tmm", npix, P)
+            st.update(P=P, M=vals, how=rng.choice(["c", "f", "view"]))
         else:
             key = ("image", Kt)
-            if key in last and rng.random() < 0.5: vis = last[key]; how = rng.choice(["fresh", "same_obj"])
-            else: vis = [Sv(v) for v in rcv(rng, Kt, e=e_h if rng.random() < 0.6 else rexp(rng))]; how = rng.choice(["fresh", "sum", "edit"])
-            last[key] = vis
-            st = {"s": "image", "t": i, "vis": vis, "how": how}
-            if how == "sum": st["part"] = [Sv(v) for v in rcv(rng, Kt)]
-            steps.append(st)
+            if vals is None:
+                if key in last and rng.random() < 0.5: vals = last[key][0]
+                else: vals = [Sv(v) for v in rcv(rng, Kt, e=e_h if rng.random() < 0.6 else rexp(rng))]
+            st.update(vis=vals, how=rng.choice(["fresh", "sum"]))
+        last[key] = (vals,)
+        return st
+    seqs = []
+    for i in live:
+        seq = []
+        for k in rng.sample(["vis", "tmm", "image"], rng.choice([1, 2, 2, 3])):
+            first = call(i, k); seq.append(first)
+            if rng.random() < 0.6:
+                v0 = first["img"] if k == "vis" else first["M"] if k == "tmm" else first["vis"]
+                mode, v1 = sibling_values(rng, k, v0)
+                seq.append(call(i, k, vals=v1, mode=mode, first=first))
+        seqs.append(seq)
+    while any(seqs):                                    # random merge, per-transformer order kept
+        q = rng.choice([q for q in seqs if q]); steps.append(q.pop(0))
     return {"op": "hist", "steps": steps}
 
 def gen_hist(tier, rng):
-    for _ in range(300 if tier == "thorough" else 26):
-        yield gen_hist_one(rng)
+    for h in range(280 if tier == "thorough" else 28):
+        yield gen_hist_one(rng, h)
 
 def gen_inputs(tier, rng):
     yield from gen_util(tier, rng)
@@ -551,17 +606,39 @@ def run_class(aa, inp, base):
         for a, b in ((T, inv.operated_mapping_matrix), (D, inv.data_vector), (Fm_, inv.curvature_matrix),
                      (D, inv2.data_vector), (Fm_, inv2.curvature_matrix), (T, inv2.operated_mapping_matrix)):
             if not same(a, np.array(b)): ok = False
-        cobjs = clist([ctup([cnat(o["P"]), cqm(Fm(o["M"])), cbool(o["reg"])]) for o in inp["objs"]])
-        coq = (f"(KInv {Pi} {G} {U} {cbool(inp['preload'])} {cobjs} {ccv(data)} {ccv(noise)} {cq(value)} "
-               f"{ccm(cmout(T))} {cqv(rvout(D))} {cqm(rmout(Fm_))})")
-        return fin(dict(base, coq=coq, out=short([D.tolist(), Fm_.tolist()]), py_ok=ok))
+        def kinv(objs_d, data_, noise_, T_, D_, F_):
+            cobjs = clist([ctup([cnat(o["P"]), cqm(Fm(o["M"])), cbool(o["reg"])]) for o in objs_d])
+            return (f"(KInv {Pi} {G} {U} {cbool(inp['preload'])} {cobjs} {ccv(data_)} {ccv(noise_)} {cq(value)} "
+                    f"{ccm(cmout(T_))} {cqv(rvout(D_))} {cqm(rmout(F_))})")
+        coq = kinv(inp["objs"], data, noise, T, D, Fm_)
+        extra = []
+        sib = inp.get("sibling")
+        if sib:
+            # a second inversion in the same interpreter through the SAME transformer object, one ingredient replaced by a
+            # sibling of the same shape (rows rotated / regularization flags flipped): compared with the model independently
+            objs_d = [dict(o) for o in inp["objs"]]; data2, noise2 = data, noise
+            if sib == "M": objs_d = [dict(o, M=o["M"][1:] + o["M"][:1]) for o in objs_d]
+            elif sib == "reg": objs_d = [dict(o, reg=not o["reg"]) for o in objs_d]
+            elif sib == "data": data2 = data[1:] + data[:1] if len(set(data)) > 1 else [(a + 1, b) for a, b in data]
+            else: noise2 = noise[1:] + noise[:1] if len(set(noise)) > 1 else [(a * 2, b) for a, b in noise]
+            ds2 = aa.DatasetInterface(data=aa.Visibilities(visibilities=cplx(data2)),
+                                      noise_map=aa.VisibilitiesNoiseMap(visibilities=cplx(noise2)), transformer=t)
+            objs2 = [aa.m.MockLinearObj(parameters=o["P"], mapping_matrix=arr2(Fm(o["M"]), o["P"]),
+                                        regularization=aa.reg.Constant(coefficient=1.0) if o["reg"] else None) for o in objs_d]
+            inv3 = aa.InversionInterferometerMapping(dataset=ds2, linear_obj_list=objs2, settings=settings)
+            extra.append(kinv(objs_d, data2, noise2, np.array(inv3.operated_mapping_matrix), np.array(inv3.data_vector),
+                              np.array(inv3.curvature_matrix)))
+            # and the first inversion still reads the same
+            for a, b in ((D, inv.data_vector), (Fm_, inv.curvature_matrix)):
+                if not same(a, np.array(b)): ok = False
+        return fin(dict(base, coq=coq, extra_coq=extra, out=short([D.tolist(), Fm_.tolist()]), py_ok=ok))
     raise ValueError(op)
 
 def run_hist(aa, inp, base):
     """interprets the recorded steps; mirrors gen_hist_one's object tables"""
     Pi = cq(PI)
     masks, mgeom, uvarrs, uvvals, trs = [], [], [], [], []
-    prev = {}                     # argument objects of earlier calls: kind -> (object, values, geometry or shape)
+    args = {}                     # argument objects of earlier calls: step id -> (object, values, geometry)
     csteps, couts, outs = [], [], []
     w = Watch(); ok = True; why = []
     def note(cond, msg):
@@ -607,38 +684,40 @@ def run_hist(aa, inp, base):
             T = trs[st["t"]]; t = T["t"]; g = T["geom"]; ncalls += 1
             if not T["live"]: raise ValueError("history addresses a retired transformer")
             w.arg("transformer.uv_wavelengths", t.uv_wavelengths); w.arg("transformer.real_space_mask", t.real_space_mask)
+            reuse = args.get(st.get("reuse"))
             if s == "vis":
                 img = Fv(st["img"]); how = st["how"]
                 mobj = masks[T["mask"]] if st.get("own_mask") else mk_mask(aa, g)
-                p = prev.get("vis")
-                reusable = p is not None and p[2] == g and len(p[1]) == len(img)
-                if how == "same_obj" and reusable and p[1] == img: im = p[0]
-                elif how == "edit" and reusable and np.asarray(p[0]).ndim == 1:
-                    im = p[0]
-                    for j, v in enumerate(fl(img)): im[j] = v                       # in-place edit of an earlier argument
+                if reuse is not None and reuse[2] == g and len(reuse[1]) == len(img):
+                    im = reuse[0]                                                   # the same Array2D object again ...
+                    if reuse[1] != img:                                             # ... edited in place by the caller
+                        if np.asarray(im).ndim == 1:
+                            for j, v in enumerate(fl(img)):
+                                if Fraction(reuse[1][j]) != img[j]: im[j] = v
+                        else:
+                            for j, (y, x) in enumerate(mask_cells(g["m"])):
+                                if Fraction(reuse[1][j]) != img[j]: im[y, x] = float(img[j])
                 elif how == "native": im = aa.Array2D(values=fl(img), mask=mobj).native
                 elif how == "store_native": im = aa.Array2D(values=fl(img), mask=mobj, store_native=True)
-                elif how == "sum":                                                  # derived by arithmetic: (img - part) + part
-                    part = Fv(st["part"])
-                    im = aa.Array2D(values=fl([a - b for a, b in zip(img, part)]), mask=mobj) + aa.Array2D(values=fl(part), mask=mobj)
+                elif how == "sum":                                                  # derived by arithmetic: (-img) + (2 img), exact
+                    im = aa.Array2D(values=fl([-a for a in img]), mask=mobj) + aa.Array2D(values=fl([2 * a for a in img]), mask=mobj)
                 elif how == "scaled":
                     c = Fraction(1, 4096); im = aa.Array2D(values=fl([a / c for a in img]), mask=mobj).native * float(c)
                 else: im = aa.Array2D(values=fl(img), mask=mobj)
                 note(same(np.array(im.slim), np.array(fl(img))), "harness: derived image does not carry the intended values")
-                prev["vis"] = (im, img, g)
+                args[st.get("id")] = (im, img, g)
                 w.arg("image", im)
                 out = np.array(t.visibilities_from(image=im)); w.done()
                 csteps.append(f"(@HVis QOpsT {cnat(st['t'])} {cqv(img)})"); couts.append(f"(@OVis QOpsT {ccv(cvout(out))})")
                 outs.append(out.tolist())
             elif s == "tmm":
                 P = st["P"]; M = Fm(st["M"]); how = st["how"]; a = arr2(M, P)
-                p = prev.get("tmm")
-                reusable = p is not None and p[0].shape == a.shape
-                if how == "same_obj" and reusable and p[1] == M: Ma = p[0]
-                elif how == "edit" and reusable: Ma = p[0]; Ma[...] = a
+                if reuse is not None and reuse[0].shape == a.shape:
+                    Ma = reuse[0]
+                    if reuse[1] != M: Ma[...] = a                                   # in-place edit of the caller's matrix
                 elif how in ("f", "view"): Ma = lay(a, how)
                 else: Ma = a
-                prev["tmm"] = (Ma, M, None)
+                args[st.get("id")] = (Ma, M, None)
                 w.arg("mapping_matrix", Ma)
                 out = t.transform_mapping_matrix(mapping_matrix=Ma); w.done()
                 note(out.shape == (len(T["uvv"]), P), "transform_mapping_matrix shape")
@@ -646,19 +725,16 @@ def run_hist(aa, inp, base):
                 outs.append(out.tolist())
             elif s == "image":
                 vis = pairs(st["vis"]); how = st["how"]
-                p = prev.get("image")
-                reusable = p is not None and len(p[1]) == len(vis)
-                if how == "same_obj" and reusable and p[1] == vis: V = p[0]
-                elif how == "edit" and reusable:
-                    V = p[0]
-                    for j, z in enumerate(cplx(vis)): V[j] = z
+                if reuse is not None and len(reuse[1]) == len(vis):
+                    V = reuse[0]
+                    if reuse[1] != vis:
+                        for j, z in enumerate(cplx(vis)): V[j] = z                  # in-place edit of the caller's Visibilities
                 elif how == "sum":
-                    part = pairs(st["part"])
-                    V = aa.Visibilities(visibilities=cplx([(a - c, b - d) for (a, b), (c, d) in zip(vis, part)])) + aa.Visibilities(visibilities=cplx(part))
+                    V = aa.Visibilities(visibilities=cplx([(-a, -b) for a, b in vis])) + aa.Visibilities(visibilities=cplx([(2 * a, 2 * b) for a, b in vis]))
                 else: V = aa.Visibilities(visibilities=cplx(vis))
                 note(same(np.array(V.in_array), np.array(flm(vis), dtype=float).reshape((len(vis), 2))),
                      "harness: derived visibilities do not carry the intended values")
-                prev["image"] = (V, vis, None)
+                args[st.get("id")] = (V, vis, None)
                 w.arg("visibilities", V)
                 res = t.image_from(visibilities=V); w.done()
                 out = np.array(res.slim)
